@@ -152,8 +152,15 @@ func Floats() *rapid.Generator[float64] {
 			return math.Float64frombits(rapid.Uint64().Draw(t, "bits"))
 		}),
 		rapid.Float64(),
+		// full-precision values in everyday ranges (16-17 significant digits in plain decimal
+		// notation, as branch lengths and scores computed by other programs have)
+		rapid.Custom(func(t *rapid.T) float64 {
+			u := float64(rapid.Uint64().Draw(t, "u")>>11) / (1 << 53)
+			return u * rapid.SampledFrom([]float64{1, 1, 10, 1000, 1e-3, -1}).Draw(t, "scale")
+		}),
 		rapid.SampledFrom([]float64{math.NaN(), math.Inf(1), math.Inf(-1), math.SmallestNonzeroFloat64, -math.SmallestNonzeroFloat64,
-			math.MaxFloat64, -math.MaxFloat64, 1e21, 1e-7, 123456789.123456789, 0.1, 1, -1, 1e100, 5e-324, 2.2250738585072014e-308}),
+			math.MaxFloat64, -math.MaxFloat64, 1e21, 1e-7, 123456789.123456789, 0.1, 1, -1, 1e100, 5e-324, 2.2250738585072014e-308,
+			0.97552492417777546, 0.9007199254740993, 1.0 / 3, 2.0 / 3, 0.1 + 0.2, 9007199254740993, 0.000123456789012345678}),
 	)
 }
 
